@@ -378,3 +378,10 @@ def _real_run(rng, n):
 
 Unit("C03", "run() over factorisations and FFT libraries [real code]", concrete=_real_run,
      bounded_desc="installed run() on a random 3-band system, 4x2x6 mesh: 4 (quick) / 12 (thorough) of its 24 factorisations, fftw and numpy, DOS / CumDOS / internal AHC compared to 1e-8")
+
+
+
+# run() with irreducible K-points must symmetrise every K-point's result whatever `symmetrize` says (otherwise the result depends on how the
+# grid is factorised into K-points and FFT points): the run()-level unit of C10 / C07, registered here as well
+import contracts.C10 as _c10      # noqa: E402
+_c10._mk_unit(2, 0, "memory", True, ("quick", "thorough"), prop="C03")
